@@ -23,7 +23,8 @@ RULE = ("case = convex problem (objective separable reciprocal / diagonal quadra
         "minimize_mma run, every iteration of which is checked. Non-trivial = at least 3 iterations and at least "
         "one bound or constraint active at the oracle optimum. Distinct = sha1 of the canonical case JSON.")
 ASSUMPTIONS = [
-    "variable signal states are python floats, numpy float scalars or 1-D float arrays (2-D states are not documented)",
+    "variable signal states are python numbers, numpy scalars or 1-D arrays, float- or integer-typed at the start (2-D states are "
+    "not documented)",
     "xmin < xmax per variable, start inside [xmin, xmax]; per-variable bounds are numpy arrays, per-signal bounds "
     "lists or arrays with one number per signal",
     "every generated problem has a strictly feasible point; MMA parameters a0, a, d keep their defaults, c = cCoef",
